@@ -1,8 +1,21 @@
 (* C08 -- I/O failures surface as errors that keep their root cause.
-   Property theorems only; every proof is `exact <lemma>` or a short composition. *)
-From Verif Require Import Lib.Base Lib.Sx Lib.Err Model.ErrorsPkg Proofs.ErrorsPkg.
+   Property theorems only; every proof is `exact <lemma>` or a short composition.
 
-(* ---------------- the errors package ----------------
+   Vocabulary.  Error values are identified by small numbers (Lib/Err.v): id_EOF = io.EOF,
+   id_UnexpectedEOF = io.ErrUnexpectedEOF, id_ShortWrite = io.ErrShortWrite, others = injected
+   transport errors.  A transport under a reader is a `stream` (Lib/IO.v): a list of segments, one per
+   Read call, `Data b` | `Fault e` (this and every later call fails with e; the end of the list is a
+   clean io.EOF) | `Last b e` (the last bytes arrive together with the error).  `flat s = (b, t)`: the
+   stream delivers exactly the bytes b and then ends with t -- so "the transport ends or fails after k
+   bytes of the wire w with error t" is `flat s = (firstn k w, t)`, for EVERY segmentation.
+   A transport under a writer is `wtr_new (Some i) m term`: Write call number i accepts only the first
+   m bytes (all but one at most when term = None: a short write without error) and reports term. *)
+From Verif Require Import Lib.Base Lib.Sx Lib.Err Lib.IO Model.ErrorsPkg Model.Faults.
+From Verif Require Import Proofs.ErrorsPkg Proofs.FaultsIO Proofs.Faults Proofs.FaultsFlv Proofs.FaultsWrite.
+From Verif Require Model.Flv Proofs.Flv.
+Open Scope N_scope.
+
+(* ================================ the errors package ================================
    An error value is a root (any error without a Cause method: io.EOF, a custom type, what
    errors.New/Errorf return) under any number of withMessage / withStack layers; `nest s ops`
    applies the wrapping calls ops (WithStack, Wrap, Wrapf, WithMessage, in any order and number)
@@ -42,11 +55,150 @@ Proof. exact (apply_op_nil_iff e o). Qed.
 
 (* non-vacuity: Wrapf(WithStack(Wrap(io.EOF, "read")), "chunk %d", 7) *)
 Example c08_errors_example :
-  let e := nest (Some (Root id_EOF [69;79;70]%N))
-                [OpWrap [114;101;97;100]%N; OpWithStack; OpWrapf [PLit [99;32]%N; PDec 7]] in
-  e_Cause e = Some (Root id_EOF [69;79;70]%N) /\
-  option_map e_Error e = Some [99;32;55;58;32;114;101;97;100;58;32;69;79;70]%N.
+  let e := nest (Some (Root id_EOF [69;79;70]))
+                [OpWrap [114;101;97;100]; OpWithStack; OpWrapf [PLit [99;32]; PDec 7]] in
+  e_Cause e = Some (Root id_EOF [69;79;70]) /\
+  option_map e_Error e = Some [99;32;55;58;32;114;101;97;100;58;32;69;79;70].
 Proof. vm_compute. auto. Qed.
+
+(* ================================ the transport ================================
+   "However the transport splits the stream": io.ReadFull and io.CopyN, on the transport directly
+   or through a bufio.Reader, cannot tell two streams with the same flattening apart -- same bytes
+   returned or same error, and the remaining streams again flatten alike.  (bufio_sound,
+   read_full_sound, copy_n_sound in Proofs/FaultsIO.v state the same for any reader that returns
+   its data in order and its error last.) *)
+Theorem c08_read_segs_concat n a1 a2 s1 s2 : 0 < a1 -> 0 < a2 -> flat s1 = flat s2 ->
+  same_result flat flat (read_full stream tr_read n s1) (read_full stream tr_read n s2) /\
+  same_result flat flat (copy_n stream tr_read a1 n s1) (copy_n stream tr_read a2 n s2) /\
+  same_result flat bt_flat (read_full stream tr_read n s1)
+              (read_full _ (br_read stream tr_read) n (bufr_new s2)).
+Proof. exact (read_segs_concat n a1 a2 s1 s2). Qed.
+
+(* the stdlib rules themselves, on (b, t) = the bytes still to come and the terminal error:
+   ReadFull of n bytes: Ok when n <= len b; t when nothing is left; ErrUnexpectedEOF when some but
+   too few bytes are left and the stream ends cleanly, t otherwise.  CopyN: Ok or t. *)
+Theorem c08_read_full_rule n s :
+  match read_full_flat n (flat s) with
+  | Ok (x, f') => exists s', read_full stream tr_read n s = Ok (x, s') /\ flat s' = f'
+  | Err e => read_full stream tr_read n s = Err e
+  | Panic _ => False
+  end.
+Proof.
+  pose proof (read_full_sound stream tr_read flat (fun _ => True) transport_sound n s I) as H.
+  destruct (read_full_flat n (flat s)) as [[x f]|e|p]; [|exact H|exact H].
+  destruct H as (s' & H1 & H2 & _). exists s'. auto.
+Qed.
+
+(* ================================ FLV demuxer ================================
+   For every header flags, every tag list (type < 256, timestamp < 2^32, body < 2^24), every cut
+   offset k, every terminal error t (id_EOF for a cut stream, else the injected error) and every
+   stream that delivers the first k bytes of the file and then t: the session ReadHeader,
+   (ReadTagHeader, ReadTag)* returns exactly `flv_expect hv ha tags k` and then fails with t itself
+   (the demuxer reads with io.CopyN and returns its error unwrapped: a cut is always io.EOF).
+   flv_expect is a prefix of the file's items (header, then per tag its header and its body), and
+   it contains exactly as many items as end within the first k bytes: nothing truncated,
+   duplicated or fabricated, and never an incomplete item without the error. *)
+Theorem c08_flv_read hv ha tags fuel s k t :
+  Forall Proofs.Flv.wf_tag tags -> (length tags < fuel)%nat ->
+  flat s = (firstn (N.to_nat k) (Model.Flv.mux hv ha tags), t) ->
+  flv_read_session stream tr_read fuel s = (flv_expect hv ha tags k, t) /\
+  length (flv_expect hv ha tags k) = count_le (flv_ends tags) k /\
+  exists rest, flv_items hv ha tags = flv_expect hv ha tags k ++ rest.
+Proof.
+  intros Hwf Hfuel Hf. split; [exact (flv_read_transport_cut hv ha tags fuel s k t Hwf Hfuel Hf)|].
+  split; [exact (flv_expect_count hv ha tags k)|exact (flv_expect_prefix hv ha tags k)].
+Qed.
+
+(* the same over any reader that is sound in the sense of Proofs/FaultsIO.v (e.g. a bufio.Reader
+   the caller put in between) *)
+Theorem c08_flv_read_any_reader S rd fl inv hv ha tags fuel st k t :
+  sound rd fl inv -> Forall Proofs.Flv.wf_tag tags -> (length tags < fuel)%nat -> inv st ->
+  fl st = (firstn (N.to_nat k) (Model.Flv.mux hv ha tags), t) ->
+  flv_read_session S rd fuel st = (flv_expect hv ha tags k, t).
+Proof. intros Hs. exact (flv_read_session_cut S rd fl inv Hs hv ha tags fuel st k t). Qed.
+
+(* non-vacuity: a file with two tags cut inside the second body, delivered in odd pieces *)
+Example c08_flv_read_example :
+  let tags := [Model.Flv.mk_tag 9 5 [1;2;3]; Model.Flv.mk_tag 8 70000 [7;7;7;7;7]] in
+  let w := Model.Flv.mux true false tags in
+  lenN w = 51 /\
+  flv_read_session stream tr_read 3
+    [Data (firstn 5 w); Data []; Data (firstn 40 (skipn 5 w)); Last (firstn 2 (skipn 45 w)) 4]
+  = ([IHeader 1 true false; ITagHeader 9 3 5; ITagBody [1;2;3]; ITagHeader 8 5 70000], 4).
+Proof. vm_compute. auto. Qed.
+
+(* ================================ FLV muxer ================================
+   A fault at Write call number i: the operations before the one that issues call i succeed, that
+   operation returns exactly the transport's error (io.ErrShortWrite for a short write without
+   error), and the peer has received a prefix of the fault-free file: the first i writes and the
+   accepted part of write i.  With no fault in reach everything succeeds and the peer has the file. *)
+Theorem c08_flv_write hv ha tags i m term :
+  let w0 := wtr_new (Some i) m term in
+  let calls := Model.Flv.mux_writes hv ha tags in
+  if i <? N.of_nat (length calls) then
+    exists w, flv_write_session hv ha tags w0 = (ops_before (flv_wops hv ha tags) i, Some (wt_err w0), w) /\
+      wt_received w = received_at m term calls i /\
+      exists rest, Model.Flv.mux hv ha tags = wt_received w ++ rest
+  else
+    exists w, flv_write_session hv ha tags w0 = (N.of_nat (1 + length tags), None, w) /\
+      wt_received w = Model.Flv.mux hv ha tags.
+Proof. exact (flv_write_fault hv ha tags i m term). Qed.
+
+Example c08_flv_write_example :
+  let tags := [Model.Flv.mk_tag 9 5 [1;2;3]; Model.Flv.mk_tag 8 6 []] in
+  let '(n, e, w) := flv_write_session true true tags (wtr_new (Some 2) 1 (Some 4)) in
+  n = 1 /\ e = Some 4 /\ lenN (wt_received w) = 13 + 11 + 1.
+Proof. vm_compute. auto. Qed.
+
+(* ================================ RTMP read path (partial) ================================
+   The read path as a read plan: the handshake (3 x io.CopyN on the raw transport) and, through
+   bufio.Reader, per chunk the basic header bytes, the message header, the extended timestamp and
+   the payload part (io.ReadFull / binary.Read), grouped into items (c0, c1, c2, one item per
+   message, and the attempt to read a further message).  For every stream, however segmented, that
+   delivers k bytes and then t, the session returns `plan_outcome`: *)
+Theorem c08_rtmp_read_partial hs ms s b t : flat s = (b, t) ->
+  rtmp_read_session hs ms s =
+  let (n, e) := plan_outcome (rtmp_plan hs ms) (lenN b) t 0 in
+  (n, match e with Some x => x | None => 1000 end).
+Proof. exact (rtmp_read_session_spec hs ms s b t). Qed.
+
+(* ... where plan_outcome satisfies the statement of C08 for any plan:
+   exactly the items that end within the first a bytes are returned; the next one fails with the
+   terminal error t, or with ErrUnexpectedEOF when t = EOF ... *)
+Theorem c08_plan_items pre it post a t :
+  plan_size pre <= a -> a < plan_size pre + item_size it ->
+  exists e, plan_outcome (pre ++ it :: post) a t 0 = (N.of_nat (length pre), Some e) /\
+            (e = t \/ (t = id_EOF /\ e = id_UnexpectedEOF)).
+Proof. intros H1 H2. destruct (plan_outcome_spec pre it post a t 0 H1 H2) as (e & H & He). exists e. now rewrite N.add_0_l in H. Qed.
+
+(* ... precisely which one: a stream that ends exactly between two items (or before the first)
+   ends with t itself -- a clean io.EOF for a cut; one byte or more into an io.ReadFull it is
+   io.ErrUnexpectedEOF ... *)
+Theorem c08_plan_boundary pre o ops post t : 0 < rop_size o ->
+  plan_outcome (pre ++ (o :: ops) :: post) (plan_size pre) t 0 = (N.of_nat (length pre), Some t).
+Proof. intros H. rewrite (plan_outcome_boundary pre o ops post t 0 H). now rewrite N.add_0_l. Qed.
+
+Theorem c08_plan_inside pre n0 ops post a :
+  plan_size pre < a -> a < plan_size pre + n0 ->
+  plan_outcome (pre ++ (RF n0 :: ops) :: post) a id_EOF 0 = (N.of_nat (length pre), Some id_UnexpectedEOF).
+Proof. intros H1 H2. rewrite (plan_outcome_inside pre n0 ops post a 0 H1 H2). now rewrite N.add_0_l. Qed.
+
+(* ... and with at most the whole wire delivered the RTMP session always ends with such an error *)
+Theorem c08_rtmp_read_always_error hs ms k t : k <= rtmp_wire_len hs ms ->
+  exists e, snd (plan_outcome (rtmp_plan hs ms) k t 0) = Some e /\
+            (e = t \/ (t = id_EOF /\ e = id_UnexpectedEOF)).
+Proof. exact (rtmp_plan_always_error hs ms k t). Qed.
+
+(* non-vacuity: one 300-byte message on chunk stream 3 (12-byte header, 128+1+128+1+44): cut right
+   after the message -> clean EOF with the message returned; cut between basic header and message
+   header -> EOF, one byte later -> ErrUnexpectedEOF; an injected error 4 inside the payload -> 4 *)
+Example c08_rtmp_read_example :
+  let ms := [mk_rmsg 0 3 9 1000 300 0] in
+  let run k t := rtmp_read_session false ms [Data (repeat 0 (N.to_nat k)); Fault t] in
+  rtmp_wire_len false ms = 314 /\
+  run 314 id_EOF = (1, id_EOF) /\ run 1 id_EOF = (0, id_EOF) /\ run 2 id_EOF = (0, id_UnexpectedEOF) /\
+  run 141 id_EOF = (0, id_EOF) /\ run 200 4 = (0, 4).
+Proof. vm_compute. auto 10. Qed.
 
 Print Assumptions c08_errors_cause.
 Print Assumptions c08_errors_cause_any.
@@ -54,3 +206,13 @@ Print Assumptions c08_errors_message.
 Print Assumptions c08_errors_message_any.
 Print Assumptions c08_errors_nil.
 Print Assumptions c08_errors_nil_op.
+Print Assumptions c08_read_segs_concat.
+Print Assumptions c08_read_full_rule.
+Print Assumptions c08_flv_read.
+Print Assumptions c08_flv_read_any_reader.
+Print Assumptions c08_flv_write.
+Print Assumptions c08_rtmp_read_partial.
+Print Assumptions c08_plan_items.
+Print Assumptions c08_plan_boundary.
+Print Assumptions c08_plan_inside.
+Print Assumptions c08_rtmp_read_always_error.
